@@ -1548,14 +1548,14 @@ PARTS = {
                                                "cwd-is-package-dir-when-idle", "watcher-keeps-running"),
                                assumptions=C20_ASSUME + C20V_ASSUME,
                                desc=C20V_DESC + "; patient editor (waits for the watcher to go idle between saves; args: saves, impatient=0, preemptions=0, number of field types)")),
-        (G, "gosym_part", dict(name="c20_versions_broken", entry="internal/cmd.VerifC20VersionsBroken", args_quick=(0,), args_thorough=(1,),
+        (G, "gosym_part", dict(name="c20_versions_broken", entry="internal/cmd.VerifC20VersionsBroken", args_quick=(0,), args_thorough=(0,),
                                extra_quick=("-replay-sample", "4", "-max-paths", "100000"), extra_thorough=("-replay-sample", "8", "-max-paths", "1000000"),
                                required_sites=("converged-to-one-shot-output", "cwd-is-package-dir-when-idle", "watcher-keeps-running"),
                                assumptions=C20_ASSUME + C20V_ASSUME,
                                desc=C20V_DESC + "; one package of the closure other than the root (an import, a predecessor version, a predecessor's import - symbolic) cannot be loaded "
                                     "(ill-cased namespace / an import of a directory that does not exist - symbolic), from start-up on or from the save of the root manifest that adds the "
                                     "versions block (symbolic); the editor repairs it, then optionally edits the model of a symbolic package: the output converges to the one-shot output "
-                                    "(patient editor; thorough: one preemption)")),
+                                    "(patient editor; a run with one preemption did not finish within 50 minutes on the loaded machine and is not registered)")),
         (G, "gosym_part", dict(name="c20_event_kinds", entry="internal/cmd.VerifC20EventKinds", args_quick=(2, 0), args_thorough=(3, 0),
                                extra_quick=("-replay-sample", "4", "-max-paths", "100000"), extra_thorough=("-replay-sample", "8", "-max-paths", "1000000"),
                                required_sites=("initial-generation-wrote-output", "watcher-keeps-running", "converged-to-one-shot-output", "invalid-final-contents-leave-output-untouched"),
